@@ -69,7 +69,7 @@ def main(chk):
     z = SV.Z3Ctx()
     sess = api.Session(ir, mode='real')
     tasks = []
-    tmo = 60000 if quick else 600000
+    tmo = 60000 if quick else 180000
 
     def add(name, pc, claim, core=True, t=None):
         tasks.append((name, list(pc), claim, t or tmo, core))
